@@ -11,6 +11,8 @@ CONSTANTS
   PosBoxB = 8
   CertBoxY = 3
   SearchCap = 600
+  Forms <- F_Default
+  Canon = "strict"
   CheckBox = 0
 INVARIANT TypeOK
 INVARIANT NullBasisSound
